@@ -11,7 +11,8 @@ From RU Require Import Base.Prelude Base.Utf8 Model.AsciiSet Gen.Tables Model.Pe
   Proofs.ListN Proofs.C09_Wf Proofs.C09_Host Proofs.C09_Inst Proofs.C09_InstWf
   Proofs.C04_ParseTotal Proofs.C03_ReachParts Proofs.C06_Suffix Proofs.C06_Host Proofs.C06_Main
   Proofs.C05_Enc Proofs.C05_Parser Proofs.C05_History Proofs.C05_Sharp Proofs.C05_Comp Proofs.C05_CompSteps
-  Proofs.C05_CompSteps3 Proofs.C05_Alphabet Proofs.C05_AuthOfs Proofs.C05_HostText Proofs.C05_ReachF Proofs.C05_HostClause.
+  Proofs.C05_CompSteps3 Proofs.C05_Alphabet Proofs.C05_AuthOfs Proofs.C05_HostText Proofs.C05_ReachF Proofs.C05_HostClause
+  Proofs.C05_ReachFSp.
 
 Definition host_byte_clean (c : N) : Prop := c < 128 /\ is_upper c = false /\ Spec.forbidden_domain_code_point c = false.
 Definition host_text_clean (s : list N) : Prop := (exists r, s = 91 :: r) \/ Forall host_byte_clean s.
@@ -81,6 +82,13 @@ Theorem reachF_host_clean_model u : CReachF dbg hp hpo hd u -> spb u = true ->
 Proof using OK.
   exact (creachF_hc dbg hp hpo hd host_text_clean model_HostSpQ (model_HostWf idna OK) (model_IpDisp idna OK)
            (model_HostOK_C05 idna OK) model_IpOKv u).
+Qed.
+
+(* the backslash clause for the linked model *)
+Theorem reachF_special_path_model u : CReachF dbg hp hpo hd u -> spb u = true ->
+  cannot_be_a_base u = Some false /\ forall p, path u = Some p -> ~ In 92 p.
+Proof using OK.
+  exact (creachF_special_path dbg hp hpo hd (model_HostWf idna OK) (model_HostOK_C05 idna OK) (model_IpDisp idna OK) model_IpOKv u).
 Qed.
 
 End Inst.
